@@ -118,3 +118,25 @@ Definition check_case_tr (c : list Z) : bool :=
       end
   | _ => false
   end.
+
+(** restart: [r] then the description of the ORIGINAL set-up, then the records the RESTARTED simulation wrote
+    (steps counted from the restart).  The model restarts as Proofs/SetupRestartProofs.v states it: the record
+    of step r of the model's own uninterrupted run, relabelled as step 0, restored into the warm set-up. *)
+From Ladim Require Import Model.SetupWarm Proofs.SimProofs Proofs.SimShiftProofs.
+Definition check_case_warm (c : list Z) : bool :=
+  match c with
+  | r :: c' =>
+      match parse_setup c' with
+      | Some (s, nrec :: obs) =>
+          let step := sim_step pv Z (m_release s) (m_force s) s_cache (m_track s) (ibm s) (s_due s) in
+          let before := fold_left step (zrange 0 r) (sim_init pv Z) in
+          let rec_r := snapshot pv r (after_release pv Z (m_release s) (m_force s) before false r) in
+          let np := npid before + Z.of_nat (length (m_release s r)) in
+          let run := m_warm_run (warm_setup s r) (relabel_rec pv (- r) rec_r) np in
+          setup_ok s && dir_ok (s_tk s) && (0 <=? r) && (r <? s_nsteps s) && (0 <? s_period s) && s_due s r &&
+          negb (crashed run) && (nrec =? Z.of_nat (length (recs run))) &&
+          match check_recs (recs run) obs with Some [] => true | _ => false end
+      | _ => false
+      end
+  | _ => false
+  end.
